@@ -220,7 +220,7 @@ def gen_definition(rng, fam):
                 tasks[t]["join"] = "all"
     # an optional counter-bounded loop: single entry, single back edge, no join inside
     if n >= 3 and rng.random() < fam["p_loop"]:
-        i = rng.randint(0, n - 2)
+        i = rng.randint(1, n - 2)     # the loop head keeps an entry from outside the loop (it is not a start task)
         j = rng.randint(i, min(n - 2, i + 2))
         body = names[i:j + 1]
         ok = all("join" not in tasks[b] and "with" not in tasks[b] for b in body)
@@ -233,6 +233,8 @@ def gen_definition(rng, fam):
             ]
             for b in body:
                 tasks[b].pop("retry", None)
+            prev_t = tasks[names[i - 1]]
+            prev_t["next"] = [{"do": [body[0]]}]
     wf["tasks"] = tasks
     if rng.random() < fam["p_output"]:
         out = [{"ox": maybe_bad(L.ctx("x"))}, {"oy": L.ctx("y")}]
@@ -280,6 +282,8 @@ def run_history(sess, rng, fam, oracle, max_steps=None):
     idle_polls = 0
     tasks = list(sess.definition["tasks"].keys())
     for _ in range(steps):
+        if hasattr(sess, "after_op"):
+            sess.after_op()
         st = sess.status()
         choices = [("poll", fam["w_poll"])]
         if sess.inflight:
@@ -288,7 +292,7 @@ def run_history(sess, rng, fam, oracle, max_steps=None):
         choices.append(("persist", fam["w_persist"]))
         choices.append(("render", fam["w_render"]))
         choices.append(("malformed", fam["w_malformed"]))
-        if st in COMPLETED:
+        if st in COMPLETED and not (fam.get("rerun_only_when_idle") and sess.inflight):
             choices.append(("rerun", fam["w_rerun"]))
         total = sum(w for _, w in choices)
         x = rng.random() * total
